@@ -46,7 +46,9 @@ void h_check_registers(void) {
   REACH("end");
 }
 /* table look-up contract on EVERY mnemonic string */
-void h_str_to_instr_key(void) { char *s; operand_format f; asm_build_index_tables(); str_to_instr_key(s, f); REACH("end"); }
+void h_str_to_instr_key(void) { char *s; operand_format f; STATIC_ZERO_INIT_INDEX_TABLES(); asm_build_index_tables();
+  { int k; ASSUME(k >= 0 && k < LETTERS_IN_ALPHABET); CHECK(instr_table_index[k] >= 0 && instr_table_index[k] <= 317, "index table entries are row numbers (or 0: letter without mnemonic)"); }
+  str_to_instr_key(s, f); REACH("end"); }
 
 /* memory-expression rejections on symbolic operand text (bounded length MEMN) */
 #ifndef MEMN
